@@ -20,3 +20,7 @@ func installHooks()                   {}
 func obsBegin(limit int)              {}
 func obsEnd() ([]Mac, int)            { return []Mac{}, -1 }
 func pools() (*sync.Pool, *sync.Pool) { return nil, nil }
+
+func scriptingAvailable() bool { return false }
+
+func withScript(sum []byte, fn func() Event) Event { return fn() }
